@@ -29,6 +29,7 @@ Definition dispatch (e : sexp) : sexp :=
       else if tag_is t "load" then tagged "nomodel" []      (* accept/reject of arbitrary bytes is the ANTLR parser's *)
       else if tag_is t "fmt" then run_fmt_case args
       else if tag_is t "parse" then run_parse_case args
+      else if tag_is t "wait" then run_wait_case args
       else bad "unknown family"
   | None => bad "not a tagged list"
   end.
